@@ -501,6 +501,23 @@ Definition resubtotal (l : list post) : res (list post) :=
                                   false 0 (sub2_value (snd e))) m)
   end.
 
+(* POST_VIRTUAL of a row made by day_of_week_posts: flush() feeds and reports one weekday after
+   the other, and handle_value marks the row virtual while the account has ACCOUNT_EXT_AUTO_VIRTUALIZE
+   without ACCOUNT_EXT_HAS_NON_VIRTUALS - i.e. while no real posting to that account has been fed,
+   which means: none on this weekday or an earlier one (Sunday first).  (by_payee_posts feeds every
+   posting before it reports anything: all rows of an account carry the same flag.)  subtotal_posts
+   behind it refuses an account whose rows differ in that flag (filters.cc:917-920). *)
+Definition dow_row_virtual (l : list post) (r : post) : bool :=
+  match ppayee r with
+  | PDow k => negb (existsb (fun p => negb (pvirt p) && str_eqb (pacct p) (pacct r)
+                                      && (day_of_week (pdate p) <=? k)) l)
+  | _ => false
+  end.
+
+Definition dow_rows_consistent (l rows : list post) : bool :=
+  forallb (fun r1 => forallb (fun r2 => negb (str_eqb (pacct r1) (pacct r2))
+                                        || Bool.eqb (dow_row_virtual l r1) (dow_row_virtual l r2)) rows) rows.
+
 (* ------------------------------------------------------------------------ calc_posts *)
 
 (* xdata.total = previous total; add_or_set_value(total, visited_value) *)
@@ -587,7 +604,8 @@ Definition stage_group (g : grouping) (l : list post) : res (list post) :=
   | GByPayee => by_payee l
   | GDow => day_of_week_posts l
   | GByPayeeSub => do r <- by_payee l; resubtotal r
-  | GDowSub => do r <- day_of_week_posts l; resubtotal r
+  | GDowSub => do r <- day_of_week_posts l;
+               if dow_rows_consistent l r then resubtotal r else Err EOther
   end.
 
 Definition stage_collapse (c : option Z) (l : list post) : res (list post) :=
